@@ -310,17 +310,17 @@ Definition tname_ok (n : str) : bool := match n with c :: n' => is_alpha c && fo
    attribute is not written and reads as empty; of attributes whose written names coincide the first wins --
    none is dropped when the lower-cased names are distinct, [first_wins_nodup]), self-closing iff Ser wrote the
    solidus, and S_tok is back in the data state right behind the ">". *)
-Theorem start_tag_roundtrip o name (a : attrs) rest cu t out cd :
+Theorem start_tag_roundtrip o (empty : bool) name (a : attrs) rest cu t out cd :
   qc_ok o -> tname_ok name = true -> forallb (fun x => aname_ok (snd (fst x))) a = true ->
-  let sc := mem_str name voidElements && solidus o in
-  exists j, sp_iter j (mk_tk dataState (ser_start o name a ++ rest) cu t out cd false)
+  let sc := empty && mem_str name voidElements && solidus o in
+  exists j, sp_iter j (mk_tk dataState (ser_start o empty name a ++ rest) cu t out cd false)
             = Some (mk_tk dataState rest (CTag false (lower_str name) (map (rd_attr o name) a) sc) t
                       (OStart (lower_str name) (first_wins [] (map (rd_attr o name) a)) sc :: out) cd false).
 Proof.
   intros Hq Hn Ha sc. unfold ser_start.
   destruct name as [|c0 n']; [discriminate Hn|]. cbn [tname_ok] in Hn. apply andb_true_iff in Hn as [Hc0 Hn'].
   set (name := c0 :: n') in *.
-  set (tail := (if mem_str name voidElements && solidus o
+  set (tail := (if empty && mem_str name voidElements && solidus o
                 then if space_solidus o || negb (last_quoted o name a) then [32; 47] else [47] else []) ++ [62]).
   assert (H1 : sp_iter 3 (mk_tk dataState ([60] ++ name ++ flat_map (ser_attr o name) a ++ tail ++ rest) cu t out cd false)
                = Some (mk_tk tagNameState (n' ++ flat_map (ser_attr o name) a ++ tail ++ rest) (CTag false [lc c0] [] false) t out cd false)).
@@ -337,7 +337,7 @@ Proof.
     right; right. destruct a; [discriminate Er|discriminate]. }
   assert (H4 : exists j, sp_iter j (mk_tk E (tail ++ rest) (CTag false (lower_str name) A false) t out cd false)
                          = Some (mk_tk dataState rest (CTag false (lower_str name) A sc) t (OStart (lower_str name) (first_wins [] A) sc :: out) cd false)).
-  { unfold tail, sc. destruct (mem_str name voidElements && solidus o).
+  { unfold tail, sc. destruct (empty && mem_str name voidElements && solidus o).
     - destruct (space_solidus o || negb (last_quoted o name a)) eqn:Esp.
       + cbn [app]. destruct (tag_close_space_solidus E (lower_str name) A rest t out cd HE HF) as [j Hj]. exists j. exact Hj.
       + cbn [app]. assert (HU : E <> attributeValueUnQuotedState).
@@ -392,7 +392,8 @@ Definition safe_tok (o : sopts) (t : token) : Prop :=
 Definition rd_tok (o : sopts) (t : token) : list otok :=
   match t with
   | TChars s | TSpace s => map (fun c => OChars [c]) s
-  | TStart _ n a | TEmpty _ n a => [OStart (lower_str n) (first_wins [] (map (rd_attr o n) a)) (mem_str n voidElements && solidus o)]
+  | TStart _ n a => [OStart (lower_str n) (first_wins [] (map (rd_attr o n) a)) false]
+  | TEmpty _ n a => [OStart (lower_str n) (first_wins [] (map (rd_attr o n) a)) (mem_str n voidElements && solidus o)]
   | TEnd _ n => [OEnd (lower_str n) [] false]
   | TComment d => [OComment (map nulfix d)]
   | TDoctype (Some n) pub sys => [ODoctype (rdn n) (rd_id pub) (rd_id sys) true]
@@ -421,12 +422,12 @@ Proof.
         destruct (text_roundtrip s (txt' ++ rest) cu tm out cd false) as [j Hj]. exists j, cu. exact Hj.
       - injection Etok as E1 E2 E3; subst c' txt0 e0. split; [reflexivity|]. exists (length s), cu. cbn [rd_tok]. apply space_roundtrip. exact Ht.
       - destruct Ht as (Hn & Hrc & Ha). rewrite Hrc in Etok. injection Etok as E1 E2 E3; subst c' txt0 e0. split; [reflexivity|].
-        destruct (start_tag_roundtrip o name a (txt' ++ rest) cu tm out cd Hq Hn Ha) as [j Hj]. eexists j, _. exact Hj.
+        destruct (start_tag_roundtrip o false name a (txt' ++ rest) cu tm out cd Hq Hn Ha) as [j Hj]. eexists j, _. exact Hj.
       - injection Etok as E1 E2 E3; subst c' txt0 e0. split; [match goal with |- (if ?b then _ else _) = _ => destruct b; reflexivity end|].
         destruct (end_tag_roundtrip name (txt' ++ rest) cu tm out cd Ht) as [j Hj]. eexists j, _.
         cbn [app] in Hj |- *. rewrite <- ?app_assoc. cbn [app]. exact Hj.
       - destruct Ht as (Hn & Hrc & Ha). rewrite Hrc in Etok. injection Etok as E1 E2 E3; subst c' txt0 e0. split; [reflexivity|].
-        destruct (start_tag_roundtrip o name a (txt' ++ rest) cu tm out cd Hq Hn Ha) as [j Hj]. eexists j, _. exact Hj.
+        destruct (start_tag_roundtrip o true name a (txt' ++ rest) cu tm out cd Hq Hn Ha) as [j Hj]. eexists j, _. exact Hj.
       - destruct Ht as (Hd & Hs1 & Hs2). injection Etok as E1 E2 E3; subst c' txt0 e0. split; [reflexivity|].
         destruct (comment_roundtrip d (txt' ++ rest) cu tm out cd Hd Hs1 Hs2) as [j Hj]. eexists j, _.
         cbn [rd_tok rev app]. rewrite <- !app_assoc. cbn [app] in Hj |- *. rewrite <- ?app_assoc. cbn [app]. exact Hj. }
